@@ -34,9 +34,13 @@ def exclusive_copy(exc: BaseException) -> BaseException:
     own and the original as its cause."""
     try:
         dup = type(exc)(*exc.args)
+        faithful = dup.args == exc.args
     except Exception:
-        # the constructor does not take its own args tuple back (a custom
-        # signature): rebuild the object without calling it
+        faithful = False
+    if not faithful:
+        # the constructor does not take its own args tuple back, or builds
+        # other args from it (a custom signature, a formatted message):
+        # rebuild the object without calling it
         dup = type(exc).__new__(type(exc))
         dup.args = exc.args
         dup.__dict__.update(exc.__dict__)
